@@ -100,7 +100,7 @@ TInvokeCall ==
     /\ T.caller \in Callers
     /\ CallerStartEn(st, T.caller)
     /\ T.k = st.ninv + 1
-    /\ st' = CallerStartDo(st, T.caller, T.pl)
+    /\ st' = CallerStartDo(st, T.caller, T.pl, T.big)
     /\ UNCHANGED tp /\ Adv
 
 TInvokeRet ==
@@ -205,6 +205,7 @@ Internal ==
        \/ Step(ShutAgentsJoinedEn(st), ShutAgentsJoinedDo(st))
        \/ Step(ShutReapedEn(st), ShutReapedDo(st))
        \/ Step(ShutReapTimeoutEn(st), ShutReapTimeoutDo(st))
+       \/ \E p \in DOMAIN st.procs : Step(WatchRecvEn(st, p), WatchRecvDo(st, p))
        \/ Step(WatchHandleEn(st), WatchHandleDo(st))
        \/ Step(WatchCancelEn(st), WatchCancelDo(st))
        \/ \E c \in DOMAIN st.calls :
